@@ -317,6 +317,10 @@ def _store(b, op, aux):
         via = op.get('via', 'obj')
         if via == 'str':
             return b.store_address(f"{op['wc']}:{op['acc']}")
+        if via == 'friendly':               # the user-friendly text form (TEP-2), written by the harness's own renderer
+            from harness.ref import refaddr
+            a0 = bytes.fromhex(op['acc'])
+            return b.store_address(refaddr.friendly(op['wc'], a0, bool(a0[0] & 1), bool(a0[1] & 1), bool(a0[2] & 1)))
         if via == 'to_cell':
             return b.store_cell(_mk_address(op).to_cell())
         return b.store_address(_mk_address(op))
@@ -876,7 +880,7 @@ def _draw_op(draw, kind, left, refs_left):
         return {'op': 'addr_ext', 'len': n, 'v': v, 'via': draw(st.sampled_from(['obj', 'obj', 'obj', 'to_cell']))}
     if kind == 'addr_std':
         return {'op': 'addr_std', 'wc': draw(st.one_of(st.sampled_from([-128, -1, 0, 127]), st.integers(-128, 127))),
-                'acc': draw(_acc), 'via': draw(st.sampled_from(['obj', 'obj', 'str', 'to_cell']))}
+                'acc': draw(_acc), 'via': draw(st.sampled_from(['obj', 'obj', 'str', 'to_cell', 'friendly']))}
     if kind == 'addr_std_anycast':
         dmax = min(30, left - 272)
         depth = draw(st.one_of(st.sampled_from(sorted({1, min(2, dmax), dmax})), st.integers(1, dmax)))
@@ -1008,7 +1012,7 @@ def enum_addr(tier):
             salt += 1
             yield _wrap({'op': 'addr_ext', 'len': n, 'v': v, 'via': 'to_cell' if j == 1 else 'obj'}, salt)
     for wc in range(-128, 128):
-        for j, via in enumerate(('obj', 'str', 'to_cell')):
+        for j, via in enumerate(('obj', 'str', 'to_cell', 'friendly')):      # every workchain through every way to name an address
             salt += 1
             acc = (b'\x00' * 32, b'\xff' * 32)[wc & 1] if j == 1 and wc % 16 < 2 else _stream(f'acc{wc}/{j}', 32)
             yield _wrap({'op': 'addr_std', 'wc': wc, 'acc': acc.hex(), 'via': via}, salt)
